@@ -34,8 +34,9 @@ variable {α : Type} [Add α] [Mul α] [Sub α] [Neg α] [Div α] [OfNat α 0] [
 /-- Python `sum(iterable)`: left fold starting from `0`. -/
 def sumL (l : List α) : α := l.foldl (· + ·) 0
 
-/-- `l[i]`, and `0` past the end (the `Poly.values()` fill-in; every table access of the
-    modelled code is in range, see `Lemmas.C10`). -/
+/-- `l[i]`, and `0` past the end (the `Poly.values()` fill-in).  The reads `acdata[abs(i-j)]` of
+    `levinson_durbin` are in range: i, j ≤ order (`LevInv.len`) and `zeroExt_length` in
+    `Lemmas.C10Lev`; `order=None` uses order = len − 1. -/
 def coef (l : List α) (i : Nat) : α := l.getD i 0
 
 /-- `abs(i - j)` on indices -/
